@@ -51,7 +51,9 @@ func (m *dealMon) check(h *Hand, gs *pf.GameState, when string) *vlib.Violation 
 		if dealtHole {
 			want = c.Hole
 		}
-		if len(p.HoleCards) != want {
+		// before the first street the statement does not say when the cards are
+		// handed out: none yet or all of them are both fine
+		if len(p.HoleCards) != want && !(!dealtHole && len(p.HoleCards) == c.Hole) {
 			return vlib.V("C14", "hole-card-count", "%s (round %q): seat %d holds %d hole cards, expected %d", when, gs.Status.Round, p.Idx, len(p.HoleCards), want)
 		}
 		if len(m.hole[i]) > 0 && !reflect.DeepEqual(m.hole[i], p.HoleCards) {
